@@ -77,7 +77,7 @@ func runSched(v int, desc string, progs []string, pick func(enabled []int, cur i
 		out.curAt = append(out.curAt, cur)
 		return id
 	}
-	api.begin(wrapped, 400000)
+	api.begin(wrapped, 60000)
 	separate := strings.HasPrefix(desc, "X")
 	d := strings.TrimPrefix(desc, "X")
 	env, err := newScriptNumber(v, d)
@@ -312,6 +312,15 @@ func dfsSchedules(v int, desc string, progs []string, iterMode, bound, maxRuns i
 // ---------------------------------------------------------------- generators
 
 func emitSched(e *emitter, kind string, v int, desc string, progs []string, o schedOutcome) {
+	if len(o.schedule) > e.dist["C05sched.longest_run_in_scheduling_decisions"] {
+		e.dist["C05sched.longest_run_in_scheduling_decisions"] = len(o.schedule)
+	}
+	if o.status == "overrun" || strings.HasPrefix(o.status, "stuck") {
+		// a run that does not come to rest within the step budget (the model bounds the length of
+		// every run: all_calls_return) or a task spinning without reaching a scheduling point:
+		// counted like a hang, so that a tree on which every run does this is reported quickly
+		e.hangs++
+	}
 	e.line(kind, fmt.Sprintf("v%d %s %s %s", v, desc, strings.Join(progs, "|"), schedString(o.schedule)), o.result(kind == "strace"))
 }
 
